@@ -46,12 +46,14 @@ def handleF6 (args : List String) : Option String :=
     | "ref" => some (joinInts (Conv.toZnx64Ref m d x))
     | "bnd50" => some (joinInts (Conv.toZnx64Bnd50 m d x))
     | "bnd63" => some (joinInts (Conv.toZnx64Bnd63 m d x))
-    | "api0" | "api1" =>
-      match Conv.initToZnx64 m d lb (v == "api1") with
+    | "bnd63old" => some (joinInts (Conv.toZnx64Bnd63Old m d x))
+    | "api0" | "api1" | "api1old" =>     -- api1old: tree without the fix of D7 (offset = divisor/2)
+      match Conv.initToZnx64 m d lb (v != "api0") with
       | none => some "error"
       | some .ref => some ("reim_to_znx64_ref " ++ joinInts (Conv.toZnx64Ref m d x))
       | some .bnd50 => some ("reim_to_znx64_avx2_bnd50_fma " ++ joinInts (Conv.toZnx64Bnd50 m d x))
-      | some .bnd63 => some ("reim_to_znx64_avx2_bnd63_fma " ++ joinInts (Conv.toZnx64Bnd63 m d x))
+      | some .bnd63 => some ("reim_to_znx64_avx2_bnd63_fma " ++
+          joinInts (if v == "api1old" then Conv.toZnx64Bnd63Old m d x else Conv.toZnx64Bnd63 m d x))
     | _ => none
   | ["to_tnx", v, m, lo, d] =>
     let m := kvNat m; let lo := kvNat lo; let d := kvNat d; let x := nats payload
